@@ -20,7 +20,7 @@ func leaves(thorough bool) []*Node {
 		NFloat(KFloat32, false, 1.5), NFloat(KFloat64, false, 1), NFloat(KFloat64, false, 1.5), NFloat(KFloat64, true, 1.5), NFloat(KFloat32, false, 1.0000001192092896),
 		NFloat(KFloat32, false, float64(float32(0.1))), NFloat(KFloat64, false, 0.1),
 		NSlice(TAny, NFloat(KFloat32, false, float64(float32(0.1))), NFloat(KFloat64, false, 0.1)), NSlice(TAny, NFloat(KFloat64, false, 0.3), NFloat(KFloat32, false, float64(float32(0.1)))),
-		str(""), str("a"), str("1"), str("true"), NStr(true, "a"),
+		str(""), str("a"), str("1"), str("true"), NStr(true, "a"), str("\u00e9"), str("a\xffb"),
 		NJSON("1"), NJSON("1.5"), NJSON("1e3"), NJSON("zz"),
 		NNilAny(), NPtr(one), NNilPtr(TInt), NPtr(NPtr(one)), NPtr(str("a")),
 		NSlice(Sc(KUint8, false), NUint(KUint8, false, 'a')),
@@ -199,6 +199,8 @@ func docs(thorough bool) []*Node {
 	for _, t := range jsonTexts {
 		out = append(out, FromJSON(t, false), FromJSON(t, true))
 	}
+	// the datum itself nil / a nil pointer (every selector fails to resolve; positive and negated operators alike)
+	out = append(out, NNilAny(), NNilPtr(NStruct(F{Name: "A", Tag: `bexpr:"a"`, V: one}).T))
 	for _, d := range []int{5, 8, 12} {
 		out = append(out, deepDoc(d, one), deepDoc(d, str("a")), deepDoc(d, NMap(TStr, TAny, str("b"), one)))
 	}
@@ -215,7 +217,11 @@ var lits = []string{"", "a", "b", "1", "0", "-1", "1.5", "true", "T", "0x1", "1_
 	// legacy octal spellings: 010 is 8 (and 08 is not a number) wherever an integer literal is read
 	"010", "08",
 	// white space at the edges of a quoted literal is part of the literal
-	" a ", " 1", " "}
+	" a ", " 1", " ",
+	// strings are compared byte for byte: no case folding, no Unicode normalisation (data has "a" and the precomposed e-acute)
+	"A", "\u00c9", "e\u0301", "\u00e9",
+	// bytes that are not UTF-8 (spelled by an escape) and the replacement character: as pattern, as needle, as value
+	"\xff", "\ufffd"}
 
 var selsQuick = [][]string{{"a"}, {"b"}, {"a", "a"}, {"a", "b"}, {"a", "c"}, {"a", "0"}, {"a", "1"}, {"a", "2"}, {"a", "true"}, {"a", "A"}, {"a", "H"}, {"a", "u"},
 	{"a", "a", "a"}, {"a", "0", "a"}, {"a", "a", "0"}, {"a", "0", "0"}, {"a", "a", "c"}, {"a", ""}, {"a", "x"}, {"a", "01"}}
